@@ -111,6 +111,18 @@ func C11(r *h.Run) {
 					if n%5 == 0 {
 						copts = append(copts, connect.WithProtoJSON())
 					}
+					// a client interceptor attaches a header too — under a name the caller also uses
+					icptKey := ""
+					if rng.Intn(3) == 0 {
+						for k := range reqH {
+							if icptKey == "" || k < icptKey {
+								icptKey = k
+							}
+						}
+						if icptKey != "" {
+							copts = append(copts, connect.WithInterceptors(hdrIcpt{icptKey, "from-interceptor"}))
+						}
+					}
 					via := viaLocal
 					if n%9 == 0 {
 						via = viaHTTP2
@@ -142,7 +154,7 @@ func C11(r *h.Run) {
 						send = [][]byte{{1}}
 					}
 					res := runE2E(bytesValueKind, kind, via, copts, nil, [][]byte{{9}}, send, retErr, 0, ex)
-					in := map[string]any{"proto": proto, "kind": kind, "outcome": outcome, "via": via, "request_header": reqH, "response_header": resH, "response_trailer": resT, "error_meta": errMeta, "error_wrapped_in_plain_error": wrapped}
+					in := map[string]any{"proto": proto, "kind": kind, "outcome": outcome, "via": via, "request_header": reqH, "response_header": resH, "response_trailer": resT, "error_meta": errMeta, "client_interceptor_adds_header_under": icptKey, "error_wrapped_in_plain_error": wrapped}
 					r.Eval("e2e_metadata", fmt.Sprint(n))
 					if res.Panic != nil {
 						r.Fail(h.Failure{Key: "metadata/panic-or-hang", Family: "e2e_metadata", What: fmt.Sprint(res.Panic), Input: in})
@@ -154,6 +166,9 @@ func C11(r *h.Run) {
 					// every header the client attached is visible to the handler
 					if res.Calls > 0 {
 						checkSub("e2e_metadata", "request-header", in, reqH, ex.HandlerSawHeader)
+						if icptKey != "" {
+							checkSub("e2e_metadata", "request-header(interceptor)", in, http.Header{icptKey: {"from-interceptor"}}, ex.HandlerSawHeader)
+						}
 					}
 					if retErr == nil {
 						if res.ClientEnd != "eof" {
@@ -286,4 +301,28 @@ func C11(r *h.Run) {
 			}
 		}
 	}
+}
+
+// hdrIcpt is a client interceptor that attaches one request header (as auth and tracing
+// interceptors do): before the unary call goes on, and on the conn of a streaming call when it
+// is constructed.
+type hdrIcpt struct{ key, val string }
+
+func (i hdrIcpt) WrapUnary(next connect.UnaryFunc) connect.UnaryFunc {
+	return func(ctx context.Context, req connect.AnyRequest) (connect.AnyResponse, error) {
+		if req.Spec().IsClient {
+			req.Header().Add(i.key, i.val)
+		}
+		return next(ctx, req)
+	}
+}
+func (i hdrIcpt) WrapStreamingClient(next connect.StreamingClientFunc) connect.StreamingClientFunc {
+	return func(ctx context.Context, spec connect.Spec) connect.StreamingClientConn {
+		conn := next(ctx, spec)
+		conn.RequestHeader().Add(i.key, i.val)
+		return conn
+	}
+}
+func (i hdrIcpt) WrapStreamingHandler(next connect.StreamingHandlerFunc) connect.StreamingHandlerFunc {
+	return next
 }
